@@ -394,6 +394,40 @@ def suite_bits(tier: str, seed: int, mult: int) -> SuiteResult:
             if cs_.tobytes() != cn.tobytes():
                 res.failures.append({"signature": "C12:centroid-depends-on-the-dtype-of-the-count", "what": f"n={nn} as {lsn.dtype}",
                                      "case": {"n": nn, "ks": kk}})
+            # medoid: a member minimising the complementary similarity (exact rational reference), sets of 1..6 rows
+            # with the emphasis on exactly three (the smallest set that is searched at all)
+            nm = rng.choice([1, 2, 3, 3, 3, 3, 4, 5, 6])
+            Fm = rng.randint(2, 24)
+            base = [1 if rng.random() < 0.5 else 0 for _ in range(Fm)]
+            mrows = [[b ^ (1 if rng.random() < rng.choice([0.05, 0.3, 0.6]) else 0) for b in base] for _ in range(nm)]
+            rng.shuffle(mrows)
+            Xm = np.asarray(mrows, dtype=np.uint8).reshape(nm, Fm)
+            cnt["medoid"] = cnt.get("medoid", 0) + 1
+            try:
+                mi_u, mr_u = sim.jt_isim_medoid(Xm, input_is_packed=False, pack=False)
+                mi_p, mr_p = sim.jt_isim_medoid(np.packbits(Xm, axis=1), input_is_packed=True, n_features=Fm, pack=False)
+                ivm = f"{int(mi_u)}"
+                if int(mi_u) != int(mi_p) or np.asarray(mr_u).tolist() != Xm[int(mi_u)].tolist() or np.asarray(mr_p).tolist() != Xm[int(mi_u)].tolist():
+                    res.failures.append({"signature": "C12:medoid-row-or-index-inconsistent", "what": f"{int(mi_u)} vs {int(mi_p)}",
+                                         "case": {"F": Fm, "rows": mrows}})
+                if nm >= 3:
+                    def exact_isim(rs):
+                        n_ = len(rs)
+                        ks = [sum(r[q] for r in rs) for q in range(Fm)]
+                        num = sum(k * (k - 1) // 2 for k in ks)
+                        den = sum(k * (k - 1) // 2 + k * (n_ - k) for k in ks)
+                        return None if den == 0 else Fraction(num, den)
+                    ex = [exact_isim([r for j, r in enumerate(mrows) if j != i]) for i in range(nm)]
+                    fl = [1.0 if e is None else float(e) for e in ex]
+                    if fl[int(mi_u)] != min(fl):
+                        res.failures.append({"signature": "C12:medoid-does-not-minimise-complementary-similarity",
+                                             "what": f"index {int(mi_u)}: {fl[int(mi_u)]} > min {min(fl)}", "case": {"F": Fm, "rows": mrows}})
+            except Exception as e:  # noqa: BLE001
+                ivm = err_name(e)
+            mvm = d.cmd(f"COMPL F={Fm} rows={rows_hex(mrows)}").split(" ")[-1]
+            res.evaluations += 1
+            if mvm != ivm and res.disagreement is None:
+                res.disagreement = {"what": "jt_isim_medoid", "F": Fm, "rows": mrows, "model": mvm, "impl": ivm}
             if len(res.samples) < 2:
                 res.samples.append({"F": F, "rows": [row_hex(r) for r in rows], "dissim": mv[:80]})
     finally:
